@@ -180,13 +180,125 @@ macro_rules! apply {
 	(@scheme false, $buf:ident, $s:ident) => { $buf.set_scheme($s) };
 }
 
+/// A near miss: one random edit (insert / delete / replace) with a character that matters.
+fn mutate(r: &mut StdRng, s: &str) -> String {
+	const SPECIAL: &[char] = &[':', '/', '?', '#', '[', ']', '@', '%', ' ', '<', '"', '^', '|', '\\', '\u{7f}', '\u{0}', 'g', 'A', '0',
+		'\u{e9}', '\u{E000}', '\u{FFFF}', '\u{10FFFF}', '\u{D7FF}', '\u{FDD0}', '\u{EFFFD}', '\u{E0000}'];
+	let mut cs: Vec<char> = s.chars().collect();
+	let c = *SPECIAL.choose(r).unwrap();
+	let pos = if cs.is_empty() { 0 } else { r.gen_range(0..=cs.len()) };
+	match r.gen_range(0..3) {
+		0 => cs.insert(pos, c),
+		1 if !cs.is_empty() => { cs.remove(pos.min(cs.len() - 1)); }
+		_ if !cs.is_empty() => { let k = pos.min(cs.len() - 1); cs[k] = c; }
+		_ => cs.push(c),
+	}
+	cs.into_iter().collect()
+}
+
+macro_rules! parse_event {
+	($out:ident, $n:ident, $w:ident, $tag:expr, $T:ty, $scheme:expr) => {{
+		let r = guard(|| <$T>::new($w).ok().map(|v| {
+			let sch: Option<String> = $scheme(v);
+			json!({"scheme": enc_opt(sch.as_deref()), "authority": enc_opt(v.authority().map(|x| x.as_str())),
+				"path": enc(v.path().as_str()), "query": enc_opt(v.query().map(|x| x.as_str())),
+				"fragment": enc_opt(v.fragment().map(|x| x.as_str()))})
+		}));
+		let ev = match r {
+			Ok(Some(p)) => json!({"ev": "parse", "ty": $tag, "w": enc($w), "ok": true, "panic": false, "p": p}),
+			Ok(None) => json!({"ev": "parse", "ty": $tag, "w": enc($w), "ok": false, "panic": false, "p": {}}),
+			Err(m) => json!({"ev": "parse", "ty": $tag, "w": enc($w), "ok": false, "panic": true, "p": {}, "msg": m}),
+		};
+		writeln!($out, "{ev}").unwrap();
+		$n += 1;
+	}};
+}
+
+fn enc_opt(s: Option<&str>) -> serde_json::Value {
+	match s {
+		Some(s) => enc(s),
+		None => json!([-1]),
+	}
+}
+
+/// drive parse <seed> <n> <out>: random valid references, near misses and byte strings, with the
+/// verdict and the components reported by the real parsers.
+fn main_parse(args: &[String]) {
+	let seed: u64 = args[2].parse().expect("seed");
+	let n: usize = args[3].parse().expect("n");
+	let mut out = BufWriter::new(File::create(&args[4]).expect("create events"));
+	let mut r = StdRng::seed_from_u64(seed);
+	let mut count = 0u64;
+	for i in 0..n {
+		let base = gen_ref(&mut r);
+		let w: String = match i % 4 {
+			0 => base,
+			1 => mutate(&mut r, &base),
+			2 => { let m = mutate(&mut r, &base); mutate(&mut r, &m) }
+			_ => {
+				// IPv6 / IPv4 shapes
+				let groups = |r: &mut StdRng, k: usize| (0..k).map(|_| { let d = r.gen_range(1..=5); (0..d).map(|_| *b"0123456789abcdefABCDEFg".choose(r).unwrap() as char).collect::<String>() }).collect::<Vec<_>>().join(":");
+				let left = r.gen_range(0..9);
+				let right = r.gen_range(0..9);
+				let host = match r.gen_range(0..4) {
+					0 => format!("[{}::{}]", groups(&mut r, left), groups(&mut r, right)),
+					1 => format!("[{}]", groups(&mut r, left)),
+					2 => format!("{}.{}.{}.{}", r.gen_range(0..300), r.gen_range(0..300), r.gen_range(0..300), r.gen_range(0..300)),
+					_ => format!("[{}::{}.{}.{}.{}]", groups(&mut r, left), r.gen_range(0..300), r.gen_range(0..300), r.gen_range(0..300), r.gen_range(0..300)),
+				};
+				format!("s://{}{}", host, if r.gen_bool(0.3) { ":80" } else { "" })
+			}
+		};
+		let w = w.as_str();
+		parse_event!(out, count, w, "IriRef", iref::iri::IriRef, |v: &iref::iri::IriRef| v.scheme().map(|x| x.as_str().to_string()));
+		parse_event!(out, count, w, "Iri", iref::iri::Iri, |v: &iref::iri::Iri| Some(v.scheme().as_str().to_string()));
+		if w.is_ascii() {
+			parse_event!(out, count, w, "UriRef", iref::uri::UriRef, |v: &iref::uri::UriRef| v.scheme().map(|x| x.as_str().to_string()));
+			parse_event!(out, count, w, "Uri", iref::uri::Uri, |v: &iref::uri::Uri| Some(v.scheme().as_str().to_string()));
+		}
+		// byte routes: UTF-8 gate (C01 / C14)
+		if i % 5 == 0 {
+			let mut bytes = w.as_bytes().to_vec();
+			// lone bytes of every class of Unicode Table 3-7, and whole sequences: well-formed and
+			// allowed (e-acute, U+E000 in a query), well-formed but not allowed (U+FFFF), overlong,
+			// encoded surrogate, beyond U+10FFFF
+			const SEQS: &[&[u8]] = &[&[0x80], &[0xBF], &[0xC0], &[0xC2], &[0xE0], &[0xED], &[0xF0], &[0xF4], &[0xF5], &[0xFF],
+				&[0xC3, 0xA9], &[0xEE, 0x80, 0x80], &[0xEF, 0xBF, 0xBF], &[0xC0, 0xAF], &[0xE0, 0x80, 0xAF], &[0xED, 0xA0, 0x80],
+				&[0xF4, 0x90, 0x80, 0x80], &[0xF0, 0x9F, 0x98, 0x80], &[0xE2, 0x82], &[0xF0, 0x9F, 0x98]];
+			let k = r.gen_range(1..=2);
+			for _ in 0..k {
+				let seq = *SEQS.choose(&mut r).unwrap();
+				// insert at a character boundary of the (so far) text, or anywhere
+				let pos = if bytes.is_empty() { 0 } else { r.gen_range(0..=bytes.len()) };
+				for (d, b) in seq.iter().enumerate() {
+					bytes.insert(pos + d, *b);
+				}
+			}
+			let r1 = guard(|| iref::iri::IriRefBuf::from_vec(bytes.clone()).map(|v| v.into_string()).map_err(|e| e.0));
+			let (ok, payload_ok, panic) = match &r1 {
+				Ok(Ok(s)) => (true, s.as_bytes() == bytes.as_slice(), false),
+				Ok(Err(b)) => (false, b.as_slice() == bytes.as_slice(), false),
+				Err(_) => (false, false, true),
+			};
+			let ev = json!({"ev": "parse_bytes", "ty": "IriRef", "bytes": bytes, "ok": ok, "kept": payload_ok, "panic": panic});
+			writeln!(out, "{ev}").unwrap();
+			count += 1;
+		}
+	}
+	out.flush().unwrap();
+	println!("{count}");
+}
+
 fn main() {
 	let args: Vec<String> = std::env::args().collect();
+	install_panic_hook();
+	if args.len() >= 5 && args[1] == "parse" {
+		return main_parse(&args);
+	}
 	if args.len() < 5 {
-		eprintln!("usage: drive <seed> <histories> <steps> <events.ndjson>");
+		eprintln!("usage: drive <seed> <histories> <steps> <events.ndjson> | drive parse <seed> <n> <events.ndjson>");
 		std::process::exit(2);
 	}
-	install_panic_hook();
 	let seed: u64 = args[1].parse().expect("seed");
 	let histories: usize = args[2].parse().expect("histories");
 	let steps: usize = args[3].parse().expect("steps");
